@@ -332,6 +332,9 @@ NA = dict(post='k9::norm_arr(r)', level='view', sparse=True)
 OPS['v_reshape'].rep_bad = [[[2, 3], [4, 2]]]
 OPS['v_add'].rep_bad = [[[2, 3], [2]]]
 OPS['e_add'].rep_bad = [[[2, 3], [2]]]
+# refusing since the fix: commits 812bb12 (repeat), 972adee (concatenate), 7d7a8ac (matmul), fb06f17 (expand_dims) of /repo
+OPS['shape_repeat'].rep_bad = [[[2, 3], 2, 2]]
+OPS['shape_repeat_l'].rep_bad = [[[2, 3], [1, 2], 1]]
 _op('e_reshape', [AR + 'reshape.hpp'], [('x', 'A'), ('newshape', 'I')], 'na::reshape(x,newshape)',
     [[[2, 3], [3, 2]]], rep_bad=[[[2, 3], [4, 2]]], **NA)
 _op('v_broadcast_to', [VW + 'broadcast_to.hpp'], [('x', 'A'), ('shape', 'L')], 'view::broadcast_to(x,shape)',
@@ -369,6 +372,11 @@ _op('e_matmul', [AR + 'matmul.hpp'], [('x', 'A'), ('y', 'A')], 'na::matmul(x,y)'
     [[[2, 3], [3, 2]]], **NA)
 _op('e_sum_k', [AR + 'sum.hpp'], [('x', 'A'), ('axis', 'I'), ('keepdims', 'b')], 'na::sum(x,axis,nm::None,nm::None,keepdims)',
     [[[2, 3], [1], True], [[2, 3], None, False]], kinds={'keepdims': ['ct']}, **NA)
+OPS['v_repeat'].rep_bad = [[[2, 3], 2, 2]]
+OPS['v_expand_dims'].rep_bad = [[[2, 3], [3]]]
+OPS['v_concatenate'].rep_bad = [[[2, 3], [2, 2], 0]]
+OPS['v_matmul'].rep_bad = [[[2, 3], [2, 2]]]
+OPS['e_matmul'].rep_bad = [[[2, 3], [2, 2]]]
 
 
 def sig(op, kinds, mode='rt'):
